@@ -203,6 +203,8 @@ def judge(ctx, module, cfg, shards, timeout=1500):
                     f.write(out)
                 raise ToolFailure("trace spec %s could not consume %s: %s" % (module, shard, out[-2000:]))
             states += dist
+            for m in re.finditer(r'<<\s*"ORDER",\s*"([^"]*)",\s*(<<.*?>>)\s*>>\s*$', out, re.M):
+                ctx.__dict__.setdefault("order_lines", []).append((m.group(1), m.group(2)))
             # L2 binding lines: the design model no longer describes the code (never a violation; reported in the evidence notes)
             nd = len(re.findall(r'<<\s*"(?:DRIFT|MODEL-DRIFT)"', out))
             if nd:
